@@ -14,7 +14,7 @@ reg(Spec("C15", "c15_timer.cpp", needs=("lib",),
               "Skip(k) with k resolved against the horizon the timer reports: 0, 1, h-1, h, h/2, random) on the real "
               "Teakra::Timer; oracle = cycle-exact model + twin doing k x Tick() for every Skip(k). core_timing_pair (20% of the cases): two "
               "timers registered on one CoreTiming, configure/restart/pause/tick/CoreTiming::Skip(max): the returned k must be min(max, both "
-              "horizons) and both timers must equal a twin pair advanced by k x CoreTiming::Tick(). timer_facade (2% of the cases): both timers through MMIO on a Teakra whose DSP idles (start, configuration word with restart strobe, event write, Run): counter read-back and ICU lines 0xA / 0x9 vs the model. Half of the timer_facade histories never acknowledge the interrupt controller: every 1 -> 0 crossing must still raise the core line (observed as the line's pending bit). Non-trivial = the "
+              "horizons) and both timers must equal a twin pair advanced by k x CoreTiming::Tick(). timer_facade (2% of the cases): both timers through MMIO on a Teakra whose DSP idles (start, configuration word with restart strobe, event write, Run): counter read-back and ICU lines 0xA / 0x9 vs the model. Half of the timer_facade histories never acknowledge the interrupt controller: every 1 -> 0 crossing must still raise the core line (observed as the line's pending bit). In those histories timer 0 is routed to two core lines (int0 and int2): both must be raised. Non-trivial = the "
               "history contains a Skip(k>=1) on a running timer or a 1->0 crossing; distinct by hash of the op list.",
          assumptions=["time scale stays 0 and count mode < 4 (other values are deliberate ASSERTs in Tick/Restart)",
                       "Restart in free-running mode is outside the property's statement: reload or no-op are both accepted",
@@ -142,7 +142,7 @@ reg(Spec("C10", "c10_addr.cpp", needs=("shim", "optable_ref"),
               "with a step, the implicit r0 of the max/min forms -- incl. the two-register multiply forms), and (forms without an offset) every data access goes to the pre-step value of a named register, "
               "bit-reversed where configured; a +s step whose configured value is 0 never moves the register, modulo or not. modulo_walk: 2*(mod+1)+3 consecutive +1 / -1 / "
               "mixed steps for generated (unit, mod, cmd, start): cyclic successor, stays in buffer, alignment bits fixed, one visit per "
-              "cell per lap. Non-trivial = register changed and the case is inside the model; distinct by hash(opcode, state).",
+              "cell per lap. rn_step includes the register forms max_ge / max_gt / min_le / min_lt Ax, r0 step (r0 is post-modified whether or not the comparison succeeds). Non-trivial = register changed and the case is inside the model; distinct by hash(opcode, state).",
          assumptions=["modulo addressing is specified only for +1 / -1 steps starting inside [base, base+mod]; other steps under modulo, starts "
                       "outside the buffer and the 9-bit narrowing of 16-bit steps are out of model (left to C01)",
                       "the data address 0xFFFF (the single MMIO cell of the test core) is avoided"]))
@@ -171,7 +171,7 @@ reg(Spec("C09", "c09_loops.cpp", needs=("shim", "optable_ref"),
               "sequence that steps down by one per iteration and ends at 0, with exactly N+1 iterations; the block-repeat variant also "
               "inside 1..3 enclosing two-pass block repeats (counter read at nesting depth 1..4), counts from an immediate, r5, r6 or "
               "the low / high half of b0 preset to a value wider than 32 bits; programs in page 0, 2 or 3. frame_roundtrip: bkrepsto ; "
-              "bkreprst ([arrn] and [sp]) with 0..4 active frames holding 18-bit addresses is the identity, also (<= 1 active frame) when the visible counter is overwritten between the save and the restore. loop_unroll bodies may save every active loop frame to the stack and restore them (bkrepsto / bkreprst [sp], the identity); one program in eight starts with a repeat while an enabled interrupt request is already latched (service routine = reti). Non-trivial = the loop "
+              "bkreprst ([arrn] and [sp]) with 0..4 active frames holding 18-bit addresses is the identity, also (<= 1 active frame) when the visible counter is overwritten between the save and the restore. loop_unroll bodies may save every active loop frame to the stack and restore them (bkrepsto / bkreprst [sp], the identity); one program in eight starts with a repeat while an enabled interrupt request is already latched (service routine = reti). frame_roundtrip: the pointer register may be configured for modulo / bit-reversed addressing (the frame pointer moves by plain steps; the four words written lie directly below it). Non-trivial = the loop "
               "executed more instructions than the program has words / N >= 1 / >= 1 active frame.",
          assumptions=["a nested block repeat never ends on the same instruction as its enclosing block (a repeated single instruction may be the "
                       "last instruction of a block, the rep instruction itself never is)", "interrupts off; bodies contain no control flow and do not touch lc/repc/sp",
